@@ -290,6 +290,21 @@ impl<'w> Assets<'w> {
         }
     }
 
+    /// Sign with another signature hash type than ALL / DEFAULT for a third of the salts
+    /// (SINGLE only where the input has a matching output).
+    pub fn vary_hashtypes(&mut self, salt: u64) {
+        if salt % 3 != 0 {
+            return;
+        }
+        use EcdsaSighashType as E;
+        use TapSighashType as T;
+        let single_ok = self.spend.idx < self.spend.tx.output.len();
+        let e = [E::All, E::None, E::Single, E::AllPlusAnyoneCanPay, E::NonePlusAnyoneCanPay, E::SinglePlusAnyoneCanPay][((salt / 3) % 6) as usize];
+        let t = [T::Default, T::All, T::None, T::Single, T::AllPlusAnyoneCanPay, T::NonePlusAnyoneCanPay, T::SinglePlusAnyoneCanPay][((salt / 18) % 7) as usize];
+        self.ecdsa_hashtype = if !single_ok && matches!(e, E::Single | E::SinglePlusAnyoneCanPay) { E::All } else { e };
+        self.tap_hashtype = if !single_ok && matches!(t, T::Single | T::SinglePlusAnyoneCanPay) { T::Default } else { t };
+    }
+
     pub fn can_sign(&self, pk: &secp256k1::PublicKey) -> bool {
         match self.world.owner_of(&pk.x_only_public_key().0.serialize()) {
             Some(o) => self.keys.contains(&o),
